@@ -127,7 +127,16 @@ maxint_t to_maxint(const std::string& expr)
     }
   }
 
-  return calculator::eval<maxint_t>(expr);
+  try
+  {
+    return calculator::eval<maxint_t>(expr);
+  }
+  catch (const calculator::error& e)
+  {
+    // pi(const std::string& x) is documented to
+    // throw a primecount_error if an error occurs.
+    throw primecount_error(e.what());
+  }
 }
 
 int get_status_precision(maxint_t x)
